@@ -123,6 +123,11 @@ def check(ctx):
     ctx.check(model.is_subclass(SSB, sov.qualname) and model.is_subclass(SER_VISITOR, sov.qualname), "C07.R3", "shared SerializationObjectVisitor", None,
               "serializer and serialization schema builder no longer share SerializationObjectVisitor (field filtering)", None, None, detail="both derive from SerializationObjectVisitor")
 
+    # ---------------- R4: every emitted key is allowed by the schema (flattened fields merged into the parent)
+    ctx.rule("C07.R4", "keys merged from flattened fields are allowed by the parent's schema: the members of the `allOf` are open (shared with C06.R12)", floor=2)
+    from .c06 import allof_composition_rule
+    allof_composition_rule(ctx, "C07.R4")
+
 
 def mutants(mb):
     S = "apischema/serialization/__init__.py"
